@@ -54,6 +54,9 @@ func ruleBuildTimeState() check.Rule {
 						}
 						// returned literals
 						ast.Inspect(fd.Body, func(x ast.Node) bool {
+							if _, isLit := x.(*ast.FuncLit); isLit {
+								return false // the returns of a nested literal are not the helper's (its own returned literals are handled below)
+							}
 							ret, ok := x.(*ast.ReturnStmt)
 							if !ok {
 								return true
@@ -61,6 +64,11 @@ func ruleBuildTimeState() check.Rule {
 							for _, r := range ret.Results {
 								lit, ok := ast.Unparen(r).(*ast.FuncLit)
 								if !ok {
+									continue
+								}
+								// a helper that hands back a subscribe function is not a stateful-closure factory: what the
+								// returned function declares is per subscription (the subscribe-closure model covers it)
+								if scs[lit] != nil {
 									continue
 								}
 								local := func(e ast.Expr) *types.Var {
